@@ -47,11 +47,18 @@ func (rm *RegistrationManager) VerifUsed(reg *DecoyRegistration) (used, tracked 
 	r := rm.registeredDecoys
 	r.m.RLock()
 	defer r.m.RUnlock()
-	t, ok := r.decoysTimeouts[reg.IDString()+reg.PhantomIp.String()]
+	tr, ok := r.transports[reg.Transport]
 	if !ok {
 		return false, false
 	}
-	return t.status == regStatusUsed, true
+	// independent of how the map is keyed: find the record by what it records
+	id, ph := tr.GetIdentifier(reg), reg.PhantomIp.String()
+	for _, t := range r.decoysTimeouts {
+		if t.decoy == ph && t.identifier == id {
+			return t.status == regStatusUsed, true
+		}
+	}
+	return false, false
 }
 
 // VerifTotals returns (registrations tracked, timeout records).
